@@ -19,8 +19,8 @@ ASSUMPTIONS = [
     "weights are re-evaluated by the harness on copies in the code's argument order; float64 features",
 ]
 BUDGET = {
-    "quick": {"cases": 2400, "seconds": 60, "shards": 8},
-    "thorough": {"cases": 40000, "seconds": 540, "shards": 16},
+    "quick": {"cases": 9600, "seconds": 90, "shards": 8},
+    "thorough": {"cases": 200000, "seconds": 900, "shards": 16},
 }
 REQUIRED_OBS = ["cost_compared", "decrease_key_on_queued", "path_len>=2", "pre_computed_cases", "tied_weight_cases", "chains_followed"]
 MIN_NONTRIVIAL = 100
